@@ -777,6 +777,8 @@ class FDE:
             raise Unsupported('truth of opaque value %r' % v)
         if isinstance(v, Obj) and isinstance(v.f.get('_children'), dict) and v.cls in self.repo.classes and ({'dict', 'list'} & set(self.repo.mro(v.cls))):
             return bool(v.f['_children'])      # a container node with a concrete child map: non-empty <=> true (dict / list truth)
+        if isinstance(v, Obj) and v.cls in ('<module>', '<class>', '<function>'):
+            return True       # modules, classes and functions are true
         if isinstance(v, Obj):
             raise Unsupported('truth of node object %r' % v)
         return bool(v)
@@ -1534,6 +1536,9 @@ class FDE:
                 return self._standin(env[n], args, kwargs)
             if n not in env and n in self.free and callable(self.free[n]) and getattr(self.free[n], '_fde_ok', False):
                 return self._standin(self.free[n], args, kwargs)
+            if n in env and isinstance(env[n], tuple) and env[n] and env[n][0] == 'closure' and n in self.stubs and self.stub is not None:
+                self.effects.append(('call', n, None, tuple(args), tuple(sorted(kwargs.items(), key=lambda kv: kv[0]))))
+                return self.stub(n, None, args, kwargs)       # a local function the rule replaces by a stand-in
             if n in env and isinstance(env[n], tuple) and env[n] and env[n][0] == 'closure':
                 return self._invoke(env[n][1], args, kwargs, base_env=env[n][2])
             if n in env and isinstance(env[n], tuple) and len(env[n]) == 2 and env[n][0] == 'class' and env[n][1] in self.repo.classes and env[n][1] not in self.stubs and self._plain_class(env[n][1]):
